@@ -18,9 +18,14 @@ CONSTANTS
   Streams,      \* deviate streams (seeds)
   Cfgs          \* configurations
 
-VARIABLES gen, ev, out
+VARIABLES gen, ev, out,
+          amb     \* the process-wide registers the application has set up (C and C++ locale, floating-point rounding mode and
+                  \* exception mask, GSL error handler, umask, working directory): another carrier of history from one call to
+                  \* the next and from one instance to another.  No library call may leave them changed (it may change and
+                  \* restore them inside the call).  The replay sets every register to a value of its own and compares after
+                  \* each action (violation key ambient:<register>).
 
-vars == <<gen, ev, out>>
+vars == <<gen, ev, out, amb>>
 view == <<gen, ev>>     \* the outcome is an output, not part of the state the history is made of
 
 \* Post-generation operations are part of the configuration.  The replay runs every behaviour under three OpModes:
@@ -44,14 +49,17 @@ Init ==
   /\ gen = [g \in Gens |-> Absent]
   /\ ev = [e \in Evs |-> "fresh"]
   /\ out = [cfg |-> "none", stream |-> "none"]
+  /\ amb = "application"
 
 Create(g, c) ==
+  /\ amb' = amb
   /\ gen[g].st = "absent"
   /\ gen' = [gen EXCEPT ![g] = [st |-> "init", cfg |-> c, prev |-> "none", shots |-> "none"]]
   /\ UNCHANGED <<ev, out>>
 
 \* shoot generator g into event object e with stream s: the outcome is the canonical event of (cfg, s)
 Shoot(g, e, s) ==
+  /\ amb' = amb
   /\ gen[g].st = "init"
   /\ out' = [cfg |-> gen[g].cfg, stream |-> s]
   /\ gen' = [gen EXCEPT ![g].shots = IF @ = "many" THEN "many" ELSE "few"]
@@ -60,6 +68,7 @@ Shoot(g, e, s) ==
 
 \* a thousand shots in a row ("first shot or millionth")
 ShootMany(g, e) ==
+  /\ amb' = amb
   /\ gen[g].st = "init" /\ gen[g].shots # "many"
   /\ gen' = [gen EXCEPT ![g].shots = "many"]
   /\ ev' = [ev EXCEPT ![e] = "used"]
@@ -67,28 +76,33 @@ ShootMany(g, e) ==
 
 \* reset and initialise again, with the same or with another configuration
 ResetReinit(g, c) ==
+  /\ amb' = amb
   /\ gen[g].st = "init"
   /\ gen' = [gen EXCEPT ![g] = [st |-> "init", cfg |-> c, prev |-> (IF c = gen[g].cfg THEN "same" ELSE "other"), shots |-> "none"]]
   /\ UNCHANGED <<ev, out>>
 
 Destroy(g) ==
+  /\ amb' = amb
   /\ gen[g].st = "init"
   /\ gen' = [gen EXCEPT ![g] = Absent]
   /\ UNCHANGED <<ev, out>>
 
 EventReset(e) ==
+  /\ amb' = amb
   /\ ev[e] # "fresh"
   /\ ev' = [ev EXCEPT ![e] = "fresh"]
   /\ UNCHANGED <<gen, out>>
 
 \* the caller leaves particles of his own in the event object
 EventPrefill(e) ==
+  /\ amb' = amb
   /\ ev[e] # "prefilled"
   /\ ev' = [ev EXCEPT ![e] = "prefilled"]
   /\ UNCHANGED <<gen, out>>
 
 \* the caller copies the event object (and goes on with the copy)
 EventCopy(e) ==
+  /\ amb' = amb
   /\ ev[e] \in {"used", "prefilled"}
   /\ ev' = [ev EXCEPT ![e] = "tight"]
   /\ UNCHANGED <<gen, out>>
@@ -106,6 +120,7 @@ Spec == Init /\ [][Next]_vars
 TypeOK ==
   /\ \A g \in Gens : gen[g].st \in {"absent", "init"}
   /\ \A e \in Evs : ev[e] \in EvStates
+  /\ amb = "application"
 
 \* the statement: the outcome names a configuration and a stream, nothing of the history
 OutcomeIsCanonical ==
